@@ -47,6 +47,11 @@ func (l *Loader) SetOpenContentProvider(provider func(path string) (string, bool
 	l.openContent = provider
 }
 
+// OpenContent returns the editor's text of path when the file is open there.
+func (l *Loader) OpenContent(path string) (string, bool) {
+	return l.openContentOf(path)
+}
+
 func (l *Loader) openContentOf(path string) (string, bool) {
 	l.mu.RLock()
 	provider := l.openContent
